@@ -203,7 +203,8 @@ RECURSIVE ThreadOf(_, _)
 ThreadOf(ts, x) == IF x = 0 THEN <<>> ELSE <<x>> \o ThreadOf(ts, ts.n[x].nx)
 Normalise(ts) ==
   LET th == ThreadOf(ts, ts.first)
-      R(x) == IF x = 0 THEN 0 ELSE CHOOSE i \in 1..Len(th) : th[i] = x
+      inv == [y \in DOMAIN ts.n |-> CHOOSE i \in 1..Len(th) : th[i] = y]
+      R(x) == IF x = 0 THEN 0 ELSE inv[x]
   IN [n |-> [i \in 1..Len(th) |-> LET nd == ts.n[th[i]] IN
                [key |-> nd.key, l |-> R(nd.l), r |-> R(nd.r), p |-> R(nd.p), h |-> nd.h, s |-> nd.s,
                 nx |-> R(nd.nx), pv |-> R(nd.pv)]],
